@@ -425,6 +425,44 @@ def gen_case_hold(rng, cid):
     return dict(cfg, id=cid, t0=t0, pre=gen_pre(rng, cfg, t0), ops=ops, threads=nth, race=True)
 
 
+def gen_case_clock(rng, cid):
+    """the clock MOVES during a make_writer call of the shared interface: it reads t when the call starts and t2 from yield
+    point 1 (after advance_date, before the file lock / refresh_writer) on - a wall clock stepped back across the boundary
+    the call has just seen reached, a long wait for the lock that spans a later boundary, or a move inside the period.
+    The period of the write is that of the reading the call started with; later calls stay at or after that reading."""
+    cfg = gen_config(rng, "s")
+    if cfg["rot"] == "n" and rng.random() < 0.8:
+        cfg["rot"] = rng.choice(["m", "h", "d"])
+    P = PER.get(cfg["rot"], 3600)
+    nth = rng.randint(1, 3)
+    t0 = clamp(rng.choice(ANCHORS) + rng.randint(-2 * P, 2 * P))
+    t = t0
+    ops = []
+    k = 0
+    if rng.random() < 0.5:
+        t = clamp(t + rng.randint(0, max(0, P - t % P - 1)))
+        ops.append(["w", rng.randrange(nth), t, mkbuf(k, rng).hex()]); k += 1
+    for _ in range(rng.randint(1, 3)):
+        b = rnd(cfg["rot"], t) + P * rng.choice([1, 1, 1, 2, 7]) if cfg["rot"] != "n" else t + rng.randint(1, 5000)
+        t = clamp(b + rng.choice([0, 0, 0, 1, 5, P // 2, P - 1]))
+        kind = rng.choice(["back", "back", "back1", "fwd", "fwd", "fwdfar", "inside"])
+        if kind == "back":
+            t2 = b - 1 - rng.choice([0, 0, 1, P // 2, P - 1])
+        elif kind == "back1":
+            t2 = b - P * rng.randint(1, 3) - rng.randint(1, P)
+        elif kind == "fwd":
+            t2 = b + P * rng.choice([1, 1, 2]) + rng.choice([0, 1, P // 3, P - 1])
+        elif kind == "fwdfar":
+            t2 = b + P * rng.randint(3, 60) + rng.randint(0, P - 1)
+        else:
+            t2 = b + rng.randint(0, P - 1)
+        ops.append(["w2", rng.randrange(nth), t, mkbuf(k, rng).hex(), max(0, clamp(t2))]); k += 1
+        for _ in range(rng.randint(1, 3)):
+            t = min(clamp(t + rng.choice([0, 1, 5, P // 3])), b + P - 1) if cfg["rot"] != "n" else t + rng.randint(0, 50)
+            ops.append(["w", rng.randrange(nth), t, mkbuf(k, rng).hex()]); k += 1
+    return dict(cfg, id=cid, t0=t0, pre=gen_pre(rng, cfg, t0), ops=ops, threads=nth)
+
+
 def gen_malformed(rng, cid):
     """outside the property's quantifier (limit 0, pre-1970 or out-of-range clocks): nothing is demanded,
     the harness must survive and report"""
@@ -467,7 +505,7 @@ def coq_chunk(hx):
     return "[" + "; ".join("%d%%N" % b for b in bytes.fromhex(hx)) + "]"
 
 
-def coq_life_ops(life):
+def coq_life_ops(life, first=True):
     if life["iface"] == "x":
         return "LX [" + "; ".join("((%d)%%Z, %s)" % (op[2], coq_chunk(op[3])) for op in life["ops"]) + "]"
     hs = []
@@ -478,12 +516,16 @@ def coq_life_ops(life):
             hs.append("HPark %d%%nat (%d)%%Z %s" % (op[1], op[2], coq_chunk(op[3])))
         elif op[0] == "park0":
             hs.append("HPark0 %d%%nat (%d)%%Z %s" % (op[1], op[2], coq_chunk(op[3])))
+        elif op[0] == "w2":
+            # the clock reads op[2] when make_writer starts and op[4] from yield point 1 on; `first` (read off the source):
+            # refresh_writer is given the first reading
+            hs.append("HW2 %s %d%%nat (%d)%%Z (%d)%%Z %s" % ("true" if first else "false", op[1], op[2], op[4], coq_chunk(op[3])))
         else:
             hs.append("HRel %d%%nat" % op[1])
     return "LS [" + "; ".join(hs) + "]"
 
 
-def coq_case(case, recheck):
+def coq_case(case, recheck, first=True):
     """the model's run of all lifetimes of the case: [(observation after construction, [observation per op])]"""
     pre = "[" + "; ".join("{| fname := %s; created := %d%%N; base := %s; landed := [] |}" % (coq_string(n), i, coq_chunk(h))
                           for i, (n, h) in enumerate(case["pre"])) + "]"
@@ -492,7 +534,7 @@ def coq_case(case, recheck):
         lf = dict(life)
         if build_panics(case, life):
             lf["ops"] = []              # no appender: the harness skips the ops too
-        ls.append("(%s, (%d)%%Z, %s)" % (coq_cfg(dict(case, max=life["max"]), recheck), life["t0"], coq_life_ops(lf)))
+        ls.append("(%s, (%d)%%Z, %s)" % (coq_cfg(dict(case, max=life["max"]), recheck), life["t0"], coq_life_ops(lf, first)))
     return "trace_lives (blank %s %d%%N) [%s]" % (pre, len(case["pre"]), "; ".join(ls))
 
 
@@ -559,7 +601,7 @@ class Oracle:
             kind = op[0]
             completes = []              # (t, buf, th, clean, nondecr, started_step)
             refresh_ran = False
-            if kind in ("w", "park", "park0"):
+            if kind in ("w", "park", "park0", "w2"):
                 th, t, buf = op[1] % max(1, case["threads"]), op[2], bytes.fromhex(op[3])
                 crossing = exp_next is not None and t >= exp_next
                 nondecr = t >= maxt
@@ -1214,6 +1256,8 @@ def run(ctx):
     rep.tie("translator:Gen_rolling", not unrec, "; ".join(unrec[:4]), unrec[:1] or None)
     recheck = "Definition gen_recheck : bool := true." in text
     yield0 = "Definition gen_yield0 : bool := true." in text
+    first_reading = "Definition gen_refresh_uses_first_reading : bool := false." not in text
+    rep.extra["refresh_writer_is_given_the_first_clock_reading"] = first_reading
     rep.extra["make_writer_rechecks_under_write_lock"] = recheck
     rep.extra["hook_yield_point_0_present"] = yield0
     # ---- leg A
@@ -1253,6 +1297,8 @@ def run(ctx):
     cases += [gen_case_race(rng, "r%d" % i) for i in range(nr)]
     rng_h = random.Random(ctx.seed * 7919 + 16)       # its own stream: the other generators' cases per seed stay what they were
     cases += [gen_case_hold(rng_h, "hold%d" % i) for i in range(60 if ctx.thorough() else 12)]
+    rng_c = random.Random(ctx.seed * 104729 + 1616)    # own stream too
+    cases += [gen_case_clock(rng_c, "clk%d" % i) for i in range(150 if ctx.thorough() else 24)]
     cases += [gen_malformed(rng, "bad%d" % i) for i in range(nm)]
     nrs, nl = (60, 30) if not ctx.thorough() else (300, 120)
     cases += [gen_case_restart(rng, "rs%d" % i) for i in range(nrs)]
@@ -1266,7 +1312,7 @@ def run(ctx):
         terms = []
         for i in range(0, len(det), 25):
             grp = det[i:i + 25]
-            terms.append(("g%d" % i, "[" + "; ".join("(%s)" % coq_case(c, recheck) for c in grp) + "]"))
+            terms.append(("g%d" % i, "[" + "; ".join("(%s)" % coq_case(c, recheck, first_reading) for c in grp) + "]"))
         res = coq_eval(ctx, "From Coq Require Import ZArith List String.\nFrom TV Require Import Appender.RollingModel.\nImport ListNotations.\n", terms,
                        shards=min(vlib.NCPU, max(1, len(terms))), tag="cases_%d" % os.getpid())   # per run: coq_eval rmtree's its directory
         shutil.rmtree(os.path.join(ctx.work, "cases_%d" % os.getpid()), ignore_errors=True)
@@ -1335,7 +1381,7 @@ def run(ctx):
                 cross = jumps = 0
                 hi = prev = c["t0"]
                 for op in c["ops"]:
-                    if op[0] not in ("w", "park", "park0", "race", "hold"):
+                    if op[0] not in ("w", "park", "park0", "race", "hold", "w2"):
                         continue
                     t = op[2]
                     # what kind of clock step this is (relative to the boundary the appender is waiting for)
